@@ -1,4 +1,5 @@
 import CprocVerif.Model.Init
+import CprocVerif.Spec.InitRef
 
 /-!
 # Classes of (type, initialiser) pairs (C07)
@@ -78,8 +79,26 @@ mutual
     | .cons _ t _ _ _ ms, .cons _ i rest => fullyBraced t i && fullyBracedMs ms rest
 end
 
-/-- the class of `parseinit_refines_ref` -/
+/-- the reference never re-zeroes a union because a second member of it is designated (the
+designated-union-member switch is known finding `union-member-switch`: there model and reference
+differ, `parseinit_refines_ref_counterexample`) -/
+def noSwitch (t : Ty) (inc : Bool) (i : Ini) : Bool :=
+  match CprocVerif.InitRef.ref t inc i with
+  | .ok r => r.nswitch == 0
+  | .error _ => true
+
+/-- well-formed type of the object: `tyWf`; an array of unknown size is `T a[]` (no elements yet)
+with a well-formed element type of non-zero size -/
+def tyWfFor (t : Ty) (inc : Bool) : Bool :=
+  if inc then
+    match t with
+    | .array 0 e => tyWf e && decide (0 < e.size)
+    | _ => false
+  else tyWf t
+
+/-- the class of `parseinit_refines_ref`: well-formed type, a braced list or a whole-object
+expression at the top level, no union member switch -/
 def refClass (t : Ty) (inc : Bool) (i : Ini) : Bool :=
-  !inc && tyWf t && noDesig i && topOK t i
+  tyWfFor t inc && topOK t i && noSwitch t inc i
 
 end CprocVerif.InitSim
